@@ -348,3 +348,44 @@ func VerifC20Store() {
 		}
 	}
 }
+
+// VerifC15V3Configuration: two writers of the same v3 configuration version: the first succeeds with a larger version,
+// the second is refused with a conflict and leaves no trace (Update and UpdateStatus in every combination).
+func VerifC15V3Configuration() {
+	ctx := context.Background()
+	s := &configurationStore{
+		client:         vClient(),
+		configurations: &v3CfgMap{},
+		committed:      make(map[configapi.ConfigurationID]_map.Map[string, *configapi.PathValue]),
+		applied:        make(map[configapi.ConfigurationID]_map.Map[string, *configapi.PathValue]),
+	}
+	id := configapi.ConfigurationID{Target: V3Target()}
+	v3Config = &configapi.Configuration{ID: id}
+	v3Config.Key, v3Config.Revision = "t1-ty-1", 1
+	v0 := verifrt.NondetUint64("version")
+	verifrt.Assume(v0 >= 1 && v0 < 1000)
+	v3ConfigV = v0
+	a, errA := s.Get(ctx, id)
+	b, errB := s.Get(ctx, id)
+	verifrt.Assert(errA == nil && errB == nil && a != nil && b != nil && a.Version == v0 && b.Version == v0, "readers-see-the-stored-version")
+	if errA != nil || errB != nil || a == nil || b == nil {
+		return
+	}
+	a.Committed.Index = configapi.Index(verifrt.NondetUint64("committed.a"))
+	b.Committed.Index = configapi.Index(verifrt.NondetUint64("committed.b"))
+	var e1, e2 error
+	if verifrt.Fork("op1", 2) == 0 {
+		e1 = s.Update(ctx, a)
+	} else {
+		e1 = s.UpdateStatus(ctx, a)
+	}
+	if verifrt.Fork("op2", 2) == 0 {
+		e2 = s.Update(ctx, b)
+	} else {
+		e2 = s.UpdateStatus(ctx, b)
+	}
+	verifrt.Cover("two-writers")
+	verifrt.Assert(e1 == nil && a.Version > v0, "first-writer-succeeds-and-the-version-grows")
+	verifrt.Assert(e2 != nil, "second-writer-of-the-same-version-is-refused")
+	verifrt.Assert(v3Config != nil && v3Config.Committed.Index == a.Committed.Index && v3ConfigV == v0+1, "the-lost-update-left-no-trace-in-the-record")
+}
